@@ -659,3 +659,87 @@ class int_keypress:
             yield "no-zero-left-in-front-of-the-cursor", no_zero_left_of_cursor(s._edit_text, s._edit_pos)
             yield "only-leading-zeros-left-of-the-cursor-removed-from-the-reference-step", zeros_stripped(mid_t, mid_p, s._edit_text, s._edit_pos)
         yield "digits-only-stays-digits-only", implies(all_in(old._edit_text, is_digit), all_in(s._edit_text, is_digit))
+
+
+# ------------------------------------------------------------------------------------------------ NumEdit (urwid/numedit.py)
+
+from pyvc.api import PROTOCOLS  # noqa: E402
+from pyvc.protocol import Protocol  # noqa: E402
+from pyvc.text import CHAR_UPPER, upper_of_char_text  # noqa: E402
+from pyvc.values import SOpaque  # noqa: E402
+
+from urwid import numedit as _numedit  # noqa: E402
+
+NE = "urwid/numedit.py:"
+_ALLOWED_HAS = z3.Function("Allowed.has", S.opaque_sort("Allowed"), z3.IntSort(), z3.BoolSort())
+
+
+class AllowedProtocol(Protocol):
+    """`NumEdit._allowed` is any Container[str]: membership is an uninterpreted predicate of (container, the str asked
+    about); the str asked about is always `ch.upper()` of a one-character ch, identified by CHAR_UPPER(character)."""
+
+    kind = "Allowed"
+    methods = {}
+
+    def contains(self, st, obj, x):
+        if not isinstance(x, SText) or x.kind != "str":
+            raise Unsupported("membership of a non-text in NumEdit._allowed")
+        return mk_bool(_ALLOWED_HAS(obj.e, z3.Int(f"{x.name}$id")))
+
+
+PROTOCOLS["Allowed"] = AllowedProtocol()
+
+
+def allowed_char(s, c):
+    """Character c (folded to upper case, as NumEdit does) belongs to the widget's alphabet."""
+    return mk_bool(_ALLOWED_HAS(s._allowed.e, CHAR_UPPER(c.e)))
+
+
+NUMEDIT = StrEditShape(_numedit.NumEdit, dict(_allowed=Opaque("Allowed"), _trim_leading_zeros=Bool, _allow_negative=Bool))
+MINUS = lambda: as_text("-").get(0)  # noqa: E731
+
+
+def starts_with_minus(t):
+    return both(tlen(t) >= 1, elem_eq(t.get(0), MINUS()))
+
+
+def _num_valid(s, ch):
+    """NumEdit.valid_char: one character; a character of the alphabet — unless it would land in front of a leading
+    minus sign; or the minus sign itself — only when negatives are allowed, at offset 0, and there is none yet."""
+    if not bool(tlen(ch) == 1):
+        return False
+    c = ch.get(0)
+    t, p = s._edit_text, s._edit_pos
+    return ite(allowed_char(s, c),
+               neg(both(p == 0, starts_with_minus(t))),
+               both(s._allow_negative, elem_eq(c, MINUS()), p == 0, neg(text_has(t, MINUS()))))
+
+
+@contract(NE + "NumEdit.valid_char", property="C10")
+class num_valid_char:
+    self_shape = NUMEDIT
+    replayable = False
+    inline = _EditBase.inline
+    params = dict(ch=Text("str"))
+    result = Bool
+    raises = ()
+    modifies = ()
+
+    def ensures(old, s, a, result):
+        ch = a.ch
+        if tlen(ch) == 1:
+            c = ch.get(0)
+            t, p = old._edit_text, old._edit_pos
+            if allowed_char(old, c):
+                yield "alphabet-character-accepted-except-in-front-of-the-sign", eq(result, neg(both(p == 0, starts_with_minus(t))))
+            else:
+                yield "other-character-only-a-first-minus-at-offset-zero-when-negatives-allowed", eq(result, both(old._allow_negative, elem_eq(c, MINUS()), p == 0, neg(text_has(t, MINUS()))))
+        else:
+            yield "not-a-single-character-rejected", result == False  # noqa: E712
+        yield "pure", both(s._edit_pos == old._edit_pos, s._edit_text is old._edit_text, len(s.trace) == 0)
+
+    def pure_spec(old, a):
+        return _num_valid(old, a.ch)
+
+
+VALID["NumEdit"] = num_valid_char
